@@ -4,7 +4,8 @@ Fixpoint ins (x : Z) (l : list Z) : list Z := match l with [] => [x] | y :: tl =
 Definition sortz (l : list Z) : list Z := fold_right ins [] l.
 Definition v_state (s : st) : V :=
   VL [match lockdir s with None => VZ (-1) | Some l => VL (map VZ (sortz l)) end; VZ (enc_opt (pin s)); VZ (enc_opt (att s));
-      VL (map (fun p => VL [VZ (pc_code (p_pc p)); VZ (p_eth p); VZ (p_table p)]) (procs s))].
+      VL (map (fun p => let c := pc_code (p_pc p) in
+                     VL [VZ c; VZ (if c =? 16 then 0 else p_eth p); VZ (if c =? 16 then -1 else p_table p)]) (procs s))].
 (* schedule entries (participant, ethertype drawn at this step or -1): take the successor in which the participant has that ethertype *)
 Fixpoint run_eth (s : st) (sched : list (nat * Z)) : st :=
   match sched with
